@@ -9,7 +9,7 @@ META = {
     'level': 'proof',
     'rule': 'cases = (automaton, word list, closure arguments); exhaustive NFAs with <=2 states over {a} (quick) / '
             '{a,b} (thorough) and DFAs with <=2 (3) states, then seeded random automata with 1-6 states; '
-            'non-trivial = NFA with >=1 epsilon move and >=1 non-empty word, or DFA with >=2 states; distinct by content',
+            'non-trivial = NFA with >=1 epsilon move and >=1 non-empty word, or DFA with >=2 states; distinct by content; also state names that are legal str values but unusual (\'\', \' \', \'{}\', \'None\', \'0\'), in-place-edit history cases',
     'assumptions': ['theorems hold under NFA.valid / DFA.valid (the constructors enforce these) and words over Sigma',
                     'states/symbols are Python str; Lean model instantiated at String'],
     'trusted_base': ['Spec: Gamba/Spec/Automata.lean (DRun, NRun, EpsReach)'],
